@@ -2,7 +2,7 @@
 
 use crate::{install_panic_hook, open_jobs, open_out, take_panic, thread_cpu_ms};
 use qmluic::metatype;
-use qmluic::typemap::{Class, ModuleData, ModuleId, NamedType, TypeMap, TypeSpace as _};
+use qmluic::typemap::{Class, ImportedModuleSpace, ModuleData, ModuleId, NamedType, TypeMap, TypeSpace as _};
 use serde::Deserialize;
 use serde_json::{json, Map, Value};
 use std::io::{self, BufRead, Write};
@@ -37,6 +37,10 @@ struct Job {
     type_names: Vec<String>,
     #[serde(default)]
     variant_names: Vec<String>,
+    /// names to resolve from every module of `modules`, once through the module's own import list and once through an
+    /// import stack pushed module by module in the same order: the two public ways must agree
+    #[serde(default)]
+    resolve_names: Vec<String>,
 }
 
 fn err_str(e: impl ToString) -> Value {
@@ -73,6 +77,7 @@ fn run_job(job: Job) -> Value {
     module_data.extend(job.enums);
     let module_id = ModuleId::Named("vf");
     type_map.insert_module(module_id, module_data);
+    let module_specs: Vec<(String, Vec<String>)> = job.modules.iter().map(|m| (m.name.clone(), m.imports.clone())).collect();
     for m in job.modules {
         let mut data = ModuleData::with_builtins();
         for i in &m.imports {
@@ -181,8 +186,34 @@ fn run_job(job: Job) -> Value {
         None => Value::Null,
     });
 
+    let mut resolution = Map::new();
+    for (mname, imports) in &module_specs {
+        let ns = type_map.get_module(ModuleId::Named(mname)).unwrap();
+        let mut pushed = ImportedModuleSpace::new(&type_map);
+        let _ = pushed.import_module(ModuleId::Builtins);
+        for i in imports {
+            let _ = pushed.import_module(ModuleId::Named(i));
+        }
+        for n in &job.resolve_names {
+            let a = ns.resolve_type(n);
+            let b = match ns.get_type(n) {
+                r @ Some(Ok(_)) => r,
+                _ => pushed.get_type(n),
+            };
+            let verdict = match (&a, &b) {
+                (Some(Ok(NamedType::Class(x))), Some(Ok(NamedType::Class(y)))) => if x == y { "same" } else { "differ" },
+                (None, None) => "none",
+                (Some(Err(_)), Some(Err(_))) => "error",
+                (Some(Ok(_)), Some(Ok(_))) => "other",
+                _ => "differ",
+            };
+            resolution.insert(format!("{mname}/{n}"), json!(verdict));
+        }
+    }
+
     json!({
         "id": job.id,
+        "resolution": resolution,
         "subjects": job.subjects,
         "kinds": kinds,
         "derived": derived,
